@@ -1154,6 +1154,7 @@ pub fn profile(prop: Prop, env: &Env) -> Profile {
         Prop::C11 => {
             allowed.dup = true;
             allowed.collide = true;
+            allowed.nonfinite = true;
             p.allowed = allowed;
             p.programs = pick(&|f| f.conv || f.validate || f.map_fn || f.error_b);
             p.rates_pm = vec![0, 0, 30, 80];
